@@ -677,7 +677,10 @@ class SArr:
         r.off = self.off
         return r
 
-    def __add__(self, o): return self._ew(o, lambda a, b: a + b)
+    def __add__(self, o):
+        if self.kind == 'b' and isinstance(o, SArr) and o.kind == 'b':
+            return self | o          # numpy: bool + bool is logical or
+        return self._ew(o, lambda a, b: a + b)
     def __radd__(self, o): return self._ew(o, lambda a, b: a + b, swap=True)
     def __sub__(self, o): return self._ew(o, lambda a, b: a - b)
     def __rsub__(self, o): return self._ew(o, lambda a, b: a - b, swap=True)
@@ -685,11 +688,19 @@ class SArr:
         if isinstance(o, float) and o != o:
             return SArr(self.shape_e, self.elem if self.kind == 'f' else (lambda *ix: z3.ToReal(self.elem(*ix)) if self.kind == 'i' else z3.RealVal(0)),
                         'f', nan=lambda *ix: z3.BoolVal(True))
+        if self.kind == 'b' and isinstance(o, SArr) and o.kind == 'b':
+            return self & o
+        if self.kind == 'b':
+            return self._bool_to_int() * o
         return self._ew(o, lambda a, b: a * b)
     def __rmul__(self, o):
         if isinstance(o, float) and o != o:
             return self.__mul__(o)
         return self._ew(o, lambda a, b: a * b, swap=True)
+
+    def _bool_to_int(self):
+        old = self.elem
+        return SArr(self.shape_e, lambda *ix: z3.If(old(*ix), z3.IntVal(1), z3.IntVal(0)), 'i')
 
     def __truediv__(self, o):
         self._div_obl(o)
@@ -1282,19 +1293,10 @@ def _native(*vals):
 
 def forall(lo, hi, f):
     if _native(lo, hi):
+        # concrete range: plain conjunction (of native booleans and/or symbolic formulas)
         lo_, hi_ = int(lo), int(hi)
-        probe = None
-        try:
-            for s in range(lo_, hi_):
-                probe = f(s)
-                if is_sym(probe) or z3.is_expr(probe):
-                    break
-                if not probe:
-                    return False
-            else:
-                return True
-        except Unsupported:
-            pass
+        if hi_ - lo_ <= 64:
+            return and_(*[(lambda s=s: f(s)) for s in range(lo_, hi_)])
     v = z3.Int('q%d' % next(_qn))
     with SpecMode():
         body = _tobool(_call(f(SInt(v))))
